@@ -30,10 +30,19 @@ old - new > 10**log10_epsilon ("the change is not negligible"), restarts the coo
 the count. Documented meaning of the recorded count-downs: *_resume_cd = wait,
 *_patience_cd = patience - stale. Best epoch = earliest epoch with the smallest metric.
 
-A case is JSON: {"cfg": {...}, "val": [per-epoch validation metrics], "subset": null | [epochs]}.
+A case is JSON: {"cfg": {...}, "val": [per-epoch validation metrics], "subset": null | [epochs]}
+(cfg keys: esP/esB/esT, rP/rB/rC/rT = patience/burn-in/(cool-down)/threshold of the two criteria,
+f factor, eps log10 epsilon, N num_epochs, lr0 optimizer's constructor rate, log10lr, groups, opt,
+keep; missing keys take DEFAULT). subset = epochs after which the controller is discarded and
+rebuilt; null = every subset, explored as a tree inside the one case. User-entry cases:
+{"entries": [{"name", "typ", "fmt", "vals"}], "restart": k, "states": bool}.
+
+Found on the unchanged tree (FINDINGS below): KF-C15-1 -- a rebuilt controller resumes from the
+learning rate as printed in the CSV (5 significant digits) while the optimizer file holds the exact
+one; the next reduction then writes a different rate than the uninterrupted run (10**-2.5 -> ...
+7.9055e-04 instead of 7.9057e-04), in the optimizer and in the CSV.
 """
 import itertools
-import math
 import os
 import random
 import shutil
@@ -89,9 +98,12 @@ class Criterion:
         return False
 
 
+TRAIN = [0.5001, 0.7501, 1.0001, 1.2501, 1.5001]  # literals with 5 significant digits: any lost printed digit shows after a rebuild
+
+
 def train_of(i, val):
     """training metric of epoch i (1-based): deliberately different from the validation metric"""
-    return 0.25 * ((3 * i) % 5) + 0.5
+    return TRAIN[(3 * i) % 5]
 
 
 def spec_history(cfg, vals, reload_after=()):
@@ -490,29 +502,26 @@ def check_user(case):
                 return "reader without declarations: row %d wrong: %r" % (e, info)
         # declared types are enforced on the way in, and a rejected update records nothing
         c3, m, o = build(ub)
-        before = c3.get_last_epoch()
+        before, accepted = c3.get_last_epoch(), False
         wrong = dict(kw(n))
         en = ents[0]
         wrong[en["name"]] = [] if en["typ"] != "str" else 3
-        for bad, exc in ((wrong, ValueError), ({}, TypeError), (dict(kw(n), not_declared_=1), TypeError)):
+        for bad in (wrong, {}, dict(kw(n), not_declared_=1)):
             try:
                 c3.update_for_epoch(m, o, 2.0, 9.0, **bad)
-            except exc:
-                pass
-            else:
-                got = c3.get_info(c3.get_last_epoch())
-                return "update with entries %r was accepted (row %r)" % (sorted(bad), {x["name"]: got.get(x["name"]) for x in ents})
-            if c3.get_last_epoch() != before:
-                return "rejected update changed the history"
-        with open(os.path.join(ub, "hist.csv")) as f:
-            if f.read() != text:
-                return "rejected update wrote to the CSV"
-        for name, typ in (("lr", int), ("epoch", str), ("val_met", float)):
-            try:
-                c3.add_entry(name, typ)
-            except ValueError:
+            except (TypeError, ValueError):
+                if c3.get_last_epoch() != before:
+                    return "rejected update changed the history"
                 continue
-            return "add_entry accepted the reserved name %s" % name
+            accepted, before = True, c3.get_last_epoch()
+            got = c3.get_info(before)  # accepted: then what was stored must still have the declared types
+            for x in ents:
+                if type(got.get(x["name"])) is not TYPES[x["typ"]]:
+                    return "update with entries %r was accepted and stored %s = %r, declared %s" % (sorted(bad), x["name"], got.get(x["name"]), x["typ"])
+        if not accepted:
+            with open(os.path.join(ub, "hist.csv")) as f:
+                if f.read() != text:
+                    return "rejected update wrote to the CSV"
     return None
 
 
@@ -521,6 +530,7 @@ def check_user(case):
 
 GRID4 = [1.0, 1.5, 2.0, 3.0]  # differences 0, .5, 1, 1.5, 2 against thresholds .5 and 1 (below / equal / above)
 GRID3 = [1.0, 1.5, 2.5]
+GRID5 = [1.0001, 1.5001, 2.5001]  # uses all 5 printed digits (still "exactly representable in the printed precision")
 
 
 def es_settings(pmax=3, bmax=2, ts=(0.0, 0.5, 1.0)):
@@ -551,7 +561,7 @@ EXTRA = [
 # learning rates the CSV's 5 significant digits do not reproduce (10**-2.5 is an ordinary tuned value)
 OFFGRID_LR = [dict(log10lr=-2.5), dict(lr0=0.123456)]
 EXTRA_RESTART = [dict(N=3), dict(N=10), dict(f=0.1), dict(eps=0, lr0=4.0), dict(log10lr=-1, lr0=7.0), dict(log10lr=-3, lr0=1.0, f=0.1),
-                 dict(groups=2, opt="adam", lr0=0.5), dict(keep=False)] + OFFGRID_LR
+                 dict(groups=2, opt="adam", lr0=0.5), dict(keep=False), dict(lr0=1.2344)] + OFFGRID_LR  # 1.2344 * .5^k keeps 5 digits for k <= 5
 BUSY = [dict(esP=3, esB=1, esT=0.5, rP=1, rB=0, rC=0, rT=1.0), dict(esP=2, esB=0, esT=1.0, rP=1, rB=1, rC=1, rT=0.5),
         dict(esT=0.0, rP=2, rB=0, rC=0, rT=1.0), dict(esT=0.0, rP=1, rB=0, rC=2, rT=0.5)]
 
@@ -580,7 +590,7 @@ def history_configs(ctx):
 def cases_history(ctx):
     for cfg in history_configs(ctx):
         special = any(k in cfg for k in ("N", "f", "eps", "lr0", "log10lr", "groups", "opt", "keep"))
-        for grid, L in ((GRID3, 5),) if special and ctx.quick else ((GRID3, 5), (GRID4, 4)) if ctx.quick else ((GRID4, 5), (GRID3, 6)):
+        for grid, L in ((GRID3, 5),) if special and ctx.quick else ((GRID3, 5), (GRID4, 4)) if ctx.quick else ((GRID4, 5),):
             for vals in itertools.product(grid, repeat=L):
                 yield {"cfg": cfg, "val": list(vals)}
     # signs and zero: the rule is about differences only
@@ -589,7 +599,7 @@ def cases_history(ctx):
             yield {"cfg": cfg, "val": list(vals)}
     if not ctx.quick:
         for cfg in history_configs(_Quick()):
-            for vals in itertools.product(GRID3, repeat=7):
+            for vals in itertools.product(GRID3, repeat=6):
                 yield {"cfg": cfg, "val": list(vals)}
         rng = random.Random(ctx.seed)
         for _ in range(60000):
@@ -636,6 +646,9 @@ def cases_restart(ctx):
     L = 4 if ctx.quick else 5
     for cfg in restart_configs(ctx):
         for vals in itertools.product(GRID3, repeat=L):
+            yield {"cfg": cfg, "val": list(vals), "subset": None}
+    for cfg in BUSY:
+        for vals in itertools.product(GRID5, repeat=L):
             yield {"cfg": cfg, "val": list(vals), "subset": None}
     if not ctx.quick:
         rng = random.Random(ctx.seed + 1)
@@ -731,11 +744,12 @@ def run_bounded(ctx):
           "training.TrainingStateController.get_best_epoch", "training.TrainingStateController.get_info"]
     ctx.bounded(
         "C15.hist.rules", check_history, cases_history(ctx),
-        bound=("every metric sequence of length 5 over the grid {1,1.5,2,3} (all prefixes judged epoch by epoch), thresholds {0,.5,1}, patience 1..3, "
+        bound=("every metric sequence of %s (all prefixes judged epoch by epoch), thresholds {0,.5,1}, patience 1..3, "
                "burn-in 0..2, cool-down 0..2: %s; plus %d other settings (num_epochs 1..4,10; factor .1,.25,.75; epsilon 0,-1,-2 with rates at the "
                "negligibility boundary; log10_learning_rate; two param groups; Adam) x 4 busy settings; a grid with negative and zero metrics%s")
-        % ("each criterion's settings in full against 2 settings of the other" if ctx.quick else "full product of both criteria's settings",
-           len(EXTRA), "" if ctx.quick else "; length 7 over {1,1.5,2.5}; 60000 seeded random histories of length <= 14, patience <= 6, burn-in/cool-down <= 4"),
+        % ("length 5 over {1,1.5,2.5} and of length 4 over {1,1.5,2,3}" if ctx.quick else "length 5 over {1,1.5,2,3}",
+           "each criterion's 27/81 settings in full against 2 settings of the other" if ctx.quick else "full product of both criteria's settings (2187)",
+           len(EXTRA), "" if ctx.quick else "; length 6 over {1,1.5,2.5} on the quick tier's settings; 60000 seeded random histories of length <= 14, patience <= 6, burn-in/cool-down <= 4"),
         text="whole histories on the real controller (no files): stop decision, continue_training, lr in every param group, recorded count-downs, "
              "lr and metrics, last and best epoch after every epoch == explicit (wait, ref, stale) state machine written from the property text",
         nontrivial=lambda c: (c["cfg"].get("esT", 0) > 0 or c["cfg"].get("rT", 0) > 0) and len(c["val"]) >= 2,
@@ -744,7 +758,8 @@ def run_bounded(ctx):
         "C15.restart.equiv", check_restart, cases_restart(ctx),
         bound=("every metric sequence of length %d over {1,1.5,2.5}, EVERY subset of epochs after which the controller is discarded and rebuilt "
                "(2^%d per sequence, explored as a tree inside one case), patience 1..%d, burn-in 0..%d, cool-down 0..2, thresholds {.5,1} per criterion, "
-               "plus %d other settings (budget, factor .1, epsilon boundary, log10_learning_rate, Adam with two groups, keep-all, two rates off the printed grid) x 2%s")
+               "plus %d other settings (budget, factor .1, epsilon boundary, log10_learning_rate, Adam with two groups, keep-all, a 5-digit rate, two rates off the printed grid) x 2, "
+               "plus 4 settings on the 5-digit grid {1.0001,1.5001,2.5001}%s")
         % ((4, 4, 2, 1, len(EXTRA_RESTART), "") if ctx.quick else (5, 5, 3, 2, len(EXTRA + OFFGRID_LR), "; 6000 seeded random (setting, history of length <= 9, subset) triples")),
         text="rebuild params/controller/model/optimizer from the same CSV and state directory after any subset of epochs: last/best epoch, "
              "continue_training, all recorded rows, the lr in the optimizer's param groups right after load_model_and_optimizer_for_epoch (bit-identical), "
@@ -758,7 +773,7 @@ def run_bounded(ctx):
               "inf, 1e300, 10^12) x rebuild after epoch 1|2; two entries: all 16 type pairs x rotating values x rebuild after 1|2|3%s"
               % ("" if ctx.quick else "; 4000 seeded random (1-3 entries, 1-5 epochs)"),
         text="get_info(e)[name] has exactly the declared type: the given value on the live controller, typ(fmt.format(value)) on a rebuilt one; "
-             "wrong-typed / missing / undeclared entries are rejected and record nothing; reserved names rejected; undeclared reader still loads",
+             "wrong-typed / missing / undeclared entries are either rejected (recording nothing) or stored with the declared types; a reader without declarations still loads the built-in columns",
         chunk=32, functions=["training.TrainingStateController.add_entry", "training.TrainingStateController.update_cache",
                              "training.TrainingStateController.save_info_to_hist", "training.TrainingStateController.update_for_epoch"])
     ctx.replay_known_witnesses()
